@@ -52,7 +52,7 @@ def execReader (stream op : String) (a : List String) : String :=
     | none => "rejected pool+2"
   | "udpwire", "new", _ => "ok"
   | "udpwire", "burst", n :: _ => s!"ok n={n} each-once"
-  | "udpwire", "flood", n :: _ => s!"ok n={n} intact-at-most-once-in-order"
+  | "udpwire", "flood", n :: _ => s!"ok n={n} intact-at-most-once"
   | "udpwire", "send", [b] =>
     let d := unhex b
     match Reader.udpParse cmap d d.length with
